@@ -515,3 +515,163 @@ package storage
 //@   trusted
 //@   modifies storeState, openStores
 //@   ensures openStores == old(openStores) - 1
+
+// ---- scans and catalog lookups (C01 C02 C14) ----
+
+//@ axiom scanActions: KeepScanning == true && StopScanning == false
+
+//@ func (r *Tuple) Decode(buf *bytes.Buffer) error
+//@   props C08
+//@   trusted
+//@   requires r.Relation != nil && r.Vals != nil
+//@   modifies mapof(r.Vals), storeState
+
+//@ func (r *Tuple) Encode() (*bytes.Buffer, error)
+//@   props C08
+//@   trusted
+//@   requires r.Relation != nil
+//@   modifies storeState
+//@   ensures result0 != nil && fresh(result0)
+
+//@ func (b *BTree) scanRight(f func(kv *leafCell) (ScanAction, error)) error
+//@   props C01 C02 C11
+//@   trusted
+//@   requires btOK(b)
+//@   callback f(kv) guarantees kv != nil && kv.pg != nil && leafOK(kv.pg) && !kv.deleted &&
+//@              (exists p int :: 0 <= p && p < cnt(kv.pg) && lc(kv.pg, p) == kv) && cached(fsOf(b), kv.pg)
+//@   callback f preserves all(btreeNode.offsets), all(btreeNode.leafCells), all(btreeNode.internalCells), all(btreeNode.isLeaf),
+//@              all(btreeNode.hasRSib), all(btreeNode.rSibFileOffset), all(btreeNode.fileOffset), all(leafCell.key), all(leafCell.deleted),
+//@              allelems(uint16), allelems(*leafCell), allelems(*internalCell)
+//@   modifies all(leafCell.pg), listLen(fsOf(b).cache.list), listAt(fsOf(b).cache.list), listPos, listOf, mapof(fsOf(b).cache.cache), all(cacheEntry.val)
+//@   ensures btOK(b)
+
+// ---- relation service: LSN protocol (C02), error frames (C14), statement bracket (C13) ----
+
+//@ ghost var txn int
+//@ spec modset treeState = all(btreeNode.offsets), all(btreeNode.leafCells), all(btreeNode.internalCells), all(btreeNode.rightOffset), all(btreeNode.dirty), all(btreeNode.lastLSN), all(btreeNode.hasRSib), all(btreeNode.hasLSib), all(btreeNode.rSibFileOffset), all(btreeNode.lSibFileOffset), all(btreeNode.fileOffset), all(leafCell.valueBytes), all(leafCell.valueSize), all(leafCell.pg), all(leafCell.deleted), allelems(uint16), allelems(*leafCell), allelems(*internalCell)
+//@ spec modset cacheState = listLen, listAt, listPos, listOf, all(cacheEntry.val), cachemaps(0)
+//@ spec pred rsOK(rs *RelationService) { rs.fs != nil && cacheOK(rs.fs) && rs.wal != nil }
+//@ spec func lsn(rs *RelationService) uint64 { rs.fs._nextLSN }
+
+//@ func (b *BTree) insertKey(key uint32, nextLSN uint64, value []byte) error
+//@   props C01 C02
+//@   trusted
+//@   requires btOK(b)
+//@   modifies @treeState, @cacheState, storeState, b.rootOffset, fsOf(b).nextFreeOffset
+//@   ensures btOK(b)
+
+//@ func (b *BTree) insert(value []byte) (uint32, uint64, error)
+//@   props C01 C02
+//@   requires btOK(b) && fsOf(b).lastKey < 4294967295 && fsOf(b)._nextLSN < 18446744073709551615
+//@   modifies @treeState, @cacheState, storeState, b.rootOffset, fsOf(b).nextFreeOffset, fsOf(b).lastKey, fsOf(b)._nextLSN
+//@   ensures[bt] btOK(b)
+//@   ensures[key; C01] result0 == old(fsOf(b).lastKey) + 1 && fsOf(b).lastKey == old(fsOf(b).lastKey) + 1
+//@   ensures[L1; C02] result1 == old(fsOf(b)._nextLSN) && fsOf(b)._nextLSN == old(fsOf(b)._nextLSN) + 1
+
+//@ func (b *BTree) findCell(key uint32) (*leafCell, error)
+//@   props C01 C11
+//@   trusted
+//@   requires btOK(b)
+//@   modifies all(leafCell.pg), @cacheState, storeState
+//@   ensures btOK(b)
+//@   ensures err == nil && result0 != nil ==> result0.key == key && !result0.deleted && result0.pg != nil && leafOK(result0.pg)
+
+//@ func (f *fileStore) lockShared()
+//@   props C13
+//@   trusted
+//@   requires txn == 0
+//@   modifies txn
+//@   ensures txn == 1
+//@ func (f *fileStore) unlockShared()
+//@   props C13
+//@   trusted
+//@   requires txn == 1
+//@   modifies txn
+//@   ensures txn == 0
+//@ func (f *fileStore) lockExclusive()
+//@   props C13
+//@   trusted
+//@   requires txn == 0
+//@   modifies txn
+//@   ensures txn == 2
+//@ func (f *fileStore) unlockExclusive()
+//@   props C13
+//@   trusted
+//@   requires txn == 2
+//@   modifies txn
+//@   ensures txn == 0
+
+//@ func (rs *RelationService) StartTxn()
+//@   props C13
+//@   requires txn == 0 && rs.fs != nil
+//@   modifies txn
+//@   ensures txn == 1
+//@ func (rs *RelationService) EndTxn()
+//@   props C13
+//@   requires txn == 1 && rs.fs != nil
+//@   modifies txn
+//@   ensures txn == 0
+
+//@ func (w *wal) flush(batch WALBatch) error
+//@   props C02 C03
+//@   trusted
+//@   modifies storeState
+//@ func (rs *RelationService) FlushWALBatch(batch WALBatch) error
+//@   props C02 C13
+//@   requires txn == 1 && rs.wal != nil
+//@   modifies storeState
+//@   ensures[held; C13] txn == 1
+
+//@ func (rs *RelationService) getRelationFileOffset$1(cell *leafCell) (ScanAction, error)
+//@   props C01
+//@   requires cell != nil
+//@   modifies cell(found), cell(fileOffset), storeState
+//@   allowpanic assert
+
+//@ func (rs *RelationService) getRelationFileOffset(relName string) (int64, error)
+//@   props C01 C02 C14
+//@   requires rsOK(rs)
+//@   modifies all(leafCell.pg), @cacheState, storeState
+//@   ensures[rs] rsOK(rs)
+//@   ensures[notfound; C14] err != nil ==> result0 == 0
+
+//@ func (rs *RelationService) getRelationSchema(relName string) (*Relation, error)
+//@   props C01
+//@   trusted
+//@   requires rsOK(rs)
+//@   modifies all(leafCell.pg), @cacheState, storeState
+//@   ensures rsOK(rs)
+//@   ensures err == nil ==> result0 != nil && fresh(result0)
+
+//@ func (rs *RelationService) Update$1(cell *leafCell) (ScanAction, error)
+//@   props C01 C02 C04 C14
+//@   requires cell != nil && cell.pg != nil && leafOK(cell.pg)
+//@   requires rs != nil && rs.fs != nil && r != nil
+//@   requires len(cols) <= len(updateSrc)
+//@   assume[lsn-no-wrap] rs.fs._nextLSN < 18446744073709551615
+//@   invariant[L1; C02] rs.fs._nextLSN - len(walLogs) == old(rs.fs._nextLSN - len(walLogs))
+//@   modifies cell(walLogs), rs.fs._nextLSN, all(leafCell.valueBytes), all(leafCell.valueSize), all(btreeNode.dirty), all(btreeNode.lastLSN), storeState, allelems(*WALEntry)
+//@   ensures[L2; C02 C04] (forall c *leafCell :: c.valueBytes == old(c.valueBytes) && c.valueSize == old(c.valueSize)) ||
+//@              (cell.pg.dirty && cell.pg.lastLSN == old(rs.fs._nextLSN) && rs.fs._nextLSN == old(rs.fs._nextLSN) + 1)
+//@   ensures[err.frame; C14] result1 != nil ==> rs.fs._nextLSN == old(rs.fs._nextLSN) && len(walLogs) == old(len(walLogs)) &&
+//@              (forall c *leafCell :: c.valueBytes == old(c.valueBytes) && c.valueSize == old(c.valueSize)) &&
+//@              (forall n *btreeNode :: n.dirty == old(n.dirty) && n.lastLSN == old(n.lastLSN))
+//@   ensures[other; C01] cell.key != rowID ==> result1 == nil && result0 == KeepScanning && rs.fs._nextLSN == old(rs.fs._nextLSN) &&
+//@              (forall c *leafCell :: c.valueBytes == old(c.valueBytes) && c.valueSize == old(c.valueSize))
+
+//@ func (rs *RelationService) Update(tableName string, rowID uint32, cols []string, updateSrc []interface{}) (WALBatch, error)
+//@   props C01 C02 C13 C14
+//@   requires rsOK(rs) && txn == 1 && len(cols) <= len(updateSrc)
+//@   modifies all(leafCell.pg), all(leafCell.valueBytes), all(leafCell.valueSize), all(btreeNode.dirty), all(btreeNode.lastLSN), @cacheState, storeState, rs.fs._nextLSN, allelems(*WALEntry)
+//@   ensures[rs] rsOK(rs) && txn == 1
+//@   ensures[L1; C02] rs.fs._nextLSN == old(rs.fs._nextLSN) + len(result0)
+
+//@ func (rs *RelationService) MarkDeleted(tableName string, rowID uint32) (WALBatch, error)
+//@   props C01 C02 C13 C14
+//@   requires rsOK(rs) && txn == 1
+//@   modifies all(leafCell.pg), all(leafCell.deleted), all(btreeNode.dirty), all(btreeNode.lastLSN), @cacheState, storeState, rs.fs._nextLSN
+//@   ensures[rs] rsOK(rs) && txn == 1
+//@   ensures[L1; C02] rs.fs._nextLSN == old(rs.fs._nextLSN) + len(result0)
+//@   ensures[L3; C02] err == nil ==> len(result0) == 1 && result0[0].LSN == old(rs.fs._nextLSN) && result0[0].cellID == rowID && result0[0].WALOp == OpDelete
+//@   ensures[err; C14] err != nil ==> len(result0) == 0 && rs.fs._nextLSN == old(rs.fs._nextLSN)
+//@   ensures[err.frame; C14] err != nil ==> forall c *leafCell :: c.deleted == old(c.deleted)
